@@ -431,10 +431,16 @@ theorem inv_job_rot_fault {cfg : Cfg} {s : St} {d : Disk} (h : Inv cfg s d) {j :
     exact inv_job_newManifest_fault h hj hbc hlate hmc M0 hM0 hnd0
   · have hone := hnd26 ⟨m, e'⟩
     subst hone
-    simp only [stepJob, e', Disk.exec, Outcome.failed, if_true, Option.some.injEq, Prod.mk.injEq] at hs
-    simp only [reduceCtorEq, if_false] at hs
-    obtain ⟨rfl, rfl⟩ := hs
-    exact inv_job_newManifest_fault h hj hbc hlate hmc d.manifests (fun _ _ => rfl) h.disk.mnodup
+    simp only [stepJob, e', Disk.exec, Outcome.failed, if_true] at hs
+    have hj' : ({ s with manifestFailed := true } : St).job = some j := hj
+    -- if the `GetMeta` of the cleanup fails as well the new manifest (not current) is kept; the commit is retried
+    have A := inv_job_back_to_append (h.set_manifestFailed true) hj' hbc hlate d.manifests (fun _ _ => rfl) h.disk.mnodup
+    have B := inv_job_newManifest_fault h hj hbc hlate hmc d.manifests (fun _ _ => rfl) h.disk.mnodup
+    repeat' split at hs
+    all_goals first
+      | (simp only [Option.some.injEq, Prod.mk.injEq] at hs; obtain ⟨rfl, rfl⟩ := hs; exact A)
+      | (simp only [Option.some.injEq, Prod.mk.injEq] at hs; obtain ⟨rfl, rfl⟩ := hs; exact B)
+      | cases hs
 
 /-- the removal of the old manifest fails: logged, the commit goes on (the repair of D27) -/
 theorem inv_job_rotRemove_any {cfg : Cfg} {s : St} {d : Disk} (h : Inv cfg s d) {j : Job}
